@@ -229,6 +229,7 @@ func contract_consumeBytesSlice(b []byte, p pointer, wtyp protowire.Type, f *cod
 // @ callsite protowire.AppendTag: arg[protowire.Number](1) == num && arg[protowire.Type](2) == wtyp
 // @ callsite append: 0 <= n && n <= len(b)
 // @ loop 1 invariant suffixOf(b, old(b)) && start == len(old(b))
+// @ site wtyp := protowire.Type(tag & 7): protowire.MinValidNumber <= num && num <= protowire.MaxValidNumber
 func contract_MessageInfo_unmarshalPointerEager(mi *MessageInfo, b []byte, p pointer, groupTag protowire.Number, opts unmarshalOptions) (out unmarshalOutput, err error) {
 	requires(mi != nil && p.p != nil)
 	modifiesAll()
@@ -447,6 +448,7 @@ func specRequiredWire(typ validationType, wtyp protowire.Type) bool {
 // @ mode int
 // @ nopanic
 // @ site st.requiredMask |= vi.requiredBit: specRequiredWire(vi.typ, wtyp)
+// @ site wtyp := protowire.Type(tag & 7): protowire.MinValidNumber <= num && num <= protowire.MaxValidNumber
 func contract_MessageInfo_validate(mi *MessageInfo, b []byte, groupTag protowire.Number, opts unmarshalOptions) (out unmarshalOutput, result ValidationStatus) {
 	modifiesAll()
 	// assumed (the validator's explicit state stack is outside the subset): a buffer reported
@@ -500,6 +502,7 @@ func contract_MessageInfo_skipField(mi *MessageInfo, b []byte, f *coderFieldInfo
 // @ site#1 presence.SetPresentUnatomic(f.presenceIndex, mi.presenceSize): o.initialized || opts.flags&piface.UnmarshalCheckRequired == 0
 // @ site pos = end: imp(lazyDecode && f != nil && f.isLazy && num != lastNum, len(lazyIndex) > 0 && lazyIndex[len(lazyIndex)-1].FieldNum == uint32(num) && lazyIndex[len(lazyIndex)-1].Start == uint32(pos) && lazyIndex[len(lazyIndex)-1].End == uint32(end))
 // @ site pos = end: imp(lazyDecode && f != nil && f.isLazy && num == lastNum && len(lazyIndex) > 0, lazyIndex[len(lazyIndex)-1].End == uint32(end))
+// @ site wtyp := protowire.Type(tag & 7): protowire.MinValidNumber <= num && num <= protowire.MaxValidNumber
 func contract_MessageInfo_unmarshalPointerLazy(mi *MessageInfo, b []byte, p pointer, groupTag protowire.Number, opts unmarshalOptions) (out unmarshalOutput, err error) {
 	requires(mi != nil && p.p != nil)
 	requires(len(b) < 1<<32)
